@@ -122,7 +122,38 @@ func resolveRoles(w *World) *Roles {
 	jobT := la.jobT
 	funcs := ro.rootFuncs()
 
-	// action enum: the named integer type returned by a function that reads Concurrency
+	// action enum: the named integer type returned by a function that reads Concurrency (itself or
+	// through the module helpers it calls); of several such functions the innermost one (the one that
+	// calls no other candidate) is the admission function, the others are wrappers around it
+	readsConc := map[*ssa.Function]bool{}
+	var reads func(fn *ssa.Function, depth int) bool
+	reads = func(fn *ssa.Function, depth int) bool {
+		if v, ok := readsConc[fn]; ok {
+			return v
+		}
+		readsConc[fn] = false
+		found := false
+		allInstrs(fn, func(in ssa.Instruction) {
+			if fa, ok := in.(*ssa.FieldAddr); ok && fieldName(fa.X.Type(), fa.Field) == "Concurrency" {
+				found = true
+			}
+			if f, ok := in.(*ssa.Field); ok && fieldName(f.X.Type(), f.Field) == "Concurrency" {
+				found = true
+			}
+			if c := callCommonOf(in); c != nil && depth < 3 {
+				if g := c.StaticCallee(); g != nil && g.Blocks != nil && g.Package() == ro.Root && g != fn && reads(g, depth+1) {
+					found = true
+				}
+			}
+		})
+		readsConc[fn] = found
+		return found
+	}
+	type cand struct {
+		fn *ssa.Function
+		n  *types.Named
+	}
+	var cands []cand
 	for _, fn := range funcs {
 		res := fn.Signature.Results()
 		if res.Len() != 1 {
@@ -135,17 +166,26 @@ func resolveRoles(w *World) *Roles {
 		if b, ok := n.Underlying().(*types.Basic); !ok || b.Info()&types.IsInteger == 0 {
 			continue
 		}
-		reads := false
-		allInstrs(fn, func(in ssa.Instruction) {
-			if fa, ok := in.(*ssa.FieldAddr); ok && fieldName(fa.X.Type(), fa.Field) == "Concurrency" {
-				reads = true
+		if reads(fn, 0) {
+			cands = append(cands, cand{fn, n})
+		}
+	}
+	for _, c := range cands {
+		inner := true
+		allInstrs(c.fn, func(in ssa.Instruction) {
+			if cc := callCommonOf(in); cc != nil {
+				for _, d := range cands {
+					if d.fn != c.fn && cc.StaticCallee() == d.fn {
+						inner = false
+					}
+				}
 			}
 		})
-		if reads {
+		if inner {
 			if ro.Admit != nil {
-				ro.fail("admission function ambiguous: %s, %s", FuncName(ro.Admit), FuncName(fn))
+				ro.fail("admission function ambiguous: %s, %s", FuncName(ro.Admit), FuncName(c.fn))
 			}
-			ro.Admit, ro.ActionT = fn, n
+			ro.Admit, ro.ActionT = c.fn, c.n
 		}
 	}
 	if ro.Admit == nil {
@@ -187,6 +227,32 @@ func resolveRoles(w *World) *Roles {
 			}
 		}
 	})
+	if ro.Count == nil {
+		// the comparison may sit in a helper of the admission function that receives the count as a parameter
+		for _, ci := range findCalls(ro.Admit, func(_ string, c *ssa.CallCommon) bool {
+			return c.StaticCallee() != nil && c.StaticCallee().Blocks != nil && c.StaticCallee().Package() == ro.Root
+		}) {
+			h := ci.Common().StaticCallee()
+			allInstrs(h, func(in ssa.Instruction) {
+				b, ok := in.(*ssa.BinOp)
+				if !ok {
+					return
+				}
+				for _, pair := range [][2]ssa.Value{{b.X, b.Y}, {b.Y, b.X}} {
+					if !strings.HasSuffix(w.AP(pair[1]), ".Concurrency") {
+						continue
+					}
+					if prm, ok := w.Resolve(pair[0]).(*ssa.Parameter); ok && prm.Parent() == h {
+						if i := paramIdxOf(prm); i >= 0 && i < len(ci.Common().Args) {
+							if c, ok := w.Resolve(ci.Common().Args[i]).(*ssa.Call); ok && c.Call.StaticCallee() != nil && w.InModule(c.Call.StaticCallee()) {
+								ro.Count = c.Call.StaticCallee()
+							}
+						}
+					}
+				}
+			})
+		}
+	}
 	if ro.Count == nil && ro.inlinedCounter() == nil {
 		ro.fail("counting function (callee compared with Concurrency in %s) not found", FuncName(ro.Admit))
 	}
@@ -234,6 +300,9 @@ func resolveRoles(w *World) *Roles {
 			completes = append(completes, fn)
 		}
 	}
+	// the state change may sit in a small helper (a method of the job, say) with a single caller:
+	// the role is the operation that helper belongs to
+	starts, completes = ro.liftSingleCaller(starts), ro.liftSingleCaller(completes)
 	if ro.Start = one(starts); ro.Start == nil {
 		ro.fail("start function (stores a non-nil PipelineJob.Start) not unique: %s", names(starts))
 	}
@@ -514,3 +583,66 @@ func (ro *Roles) need(r *Report, rule string, fs map[string]*ssa.Function) bool 
 }
 
 var _ = token.ADD
+
+// liftSingleCaller replaces every function that does not take a lock itself, has no defer/go, and is
+// called statically from exactly one other module function (and never used as a value) by that caller,
+// repeatedly; duplicates are merged.
+func (ro *Roles) liftSingleCaller(fns []*ssa.Function) []*ssa.Function {
+	w := ro.w
+	lift := func(fn *ssa.Function) *ssa.Function {
+		for depth := 0; depth < 3; depth++ {
+			if fn.Parent() != nil || !w.inlinableShape(fn) || (fn.Object() != nil && fn.Object().Exported() && fn.Signature.Recv() == nil) {
+				return fn
+			}
+			locks := false
+			allInstrs(fn, func(in ssa.Instruction) {
+				if c := callCommonOf(in); c != nil && c.StaticCallee() != nil {
+					n := c.StaticCallee().String()
+					if strings.HasSuffix(n, "Mutex).Lock") || strings.HasSuffix(n, "Mutex).RLock") {
+						locks = true
+					}
+				}
+			})
+			if locks {
+				return fn
+			}
+			var callers []*ssa.Function
+			asValue := false
+			for _, f := range w.ModFuncs {
+				allInstrs(f, func(in ssa.Instruction) {
+					if c := callCommonOf(in); c != nil {
+						if c.StaticCallee() == fn {
+							if len(callers) == 0 || callers[len(callers)-1] != f {
+								callers = append(callers, f)
+							}
+							return
+						}
+						for _, a := range c.Args {
+							if funcValue(a) == fn {
+								asValue = true
+							}
+						}
+					}
+					if mc, ok := in.(*ssa.MakeClosure); ok && mc.Fn == ssa.Value(fn) {
+						asValue = true
+					}
+				})
+			}
+			if asValue || len(callers) != 1 || callers[0] == fn {
+				return fn
+			}
+			fn = callers[0]
+		}
+		return fn
+	}
+	var out []*ssa.Function
+	seen := map[*ssa.Function]bool{}
+	for _, f := range fns {
+		g := lift(f)
+		if !seen[g] {
+			seen[g] = true
+			out = append(out, g)
+		}
+	}
+	return out
+}
